@@ -386,9 +386,17 @@ def _names(cfg):
     return {DEST: 0, part_name(cfg): 1, OTHER: 2}
 
 
+def is_partlink(init):
+    return bool(init.get("partlink")) and init.get("dest") is not None and init.get("part") is not None
+
+
 def _populate(tmpdir, cfg, init):
     for key, base in (("dest", DEST), ("part", part_name(cfg)), ("other", OTHER)):
         ent = init.get(key)
+        if key == "part" and is_partlink(init):
+            # what a save that died between link(part, dest) and unlink(part) leaves: one inode, two names
+            os.link(os.path.join(tmpdir, DEST), os.path.join(tmpdir, base))
+            continue
         if ent is not None:
             p = os.path.join(tmpdir, base)
             with open(p, "wb") as f:
@@ -667,8 +675,8 @@ def case_term(case, obs, tb):
     new = utf8("".join(data_of(op) for op in case["body"] if op[0] == "w"))
     if len(new) > 3:
         tb.ref(new)
-    return "(mkCase %s %s %s %s %s %s %s %s %s)" % (
-        c_cfg(case["cfg"]), cN(case.get("umask", 0o022)), c_init(case, tb),
+    return "(mkCase %s %s %s %s %s %s %s %s %s %s)" % (
+        c_cfg(case["cfg"]), cN(case.get("umask", 0o022)), c_init(case, tb), cbool(is_partlink(case["init"])),
         c_body(case, obs["run"]["trace"], tb), cbool(case.get("body_exc", False)), c_sched(case, tb),
         c_runobs(obs["run"], tb),
         clist("(%s, %s)" % (cnat(k), c_files(f, tb)) for k, f in obs["crashes"]),
@@ -742,7 +750,11 @@ def gen_init(rng, cfg, want_dest=None, want_part=None):
         init["dest"] = [rng.choice(["OLD", "old content\n", "", "previous édition"]), rng.choice([0o644, 0o600, 0o664, 0o755, 0o640])]
     has_part = rng.random() < 0.15 if want_part is None else want_part
     if has_part:
-        init["part"] = [rng.choice(["stale part", "", "PARTIAL"]), rng.choice([0o644, 0o600])]
+        if has_dest and rng.random() < 0.35:
+            init["part"] = list(init["dest"])        # hard link of the destination: same bytes, same mode
+            init["partlink"] = True
+        else:
+            init["part"] = [rng.choice(["stale part", "", "PARTIAL"]), rng.choice([0o644, 0o600])]
     if rng.random() < 0.5:
         init["other"] = ["bystander", 0o644]
     return init
@@ -822,7 +834,8 @@ def distribution(d, case, obs):
     bump("mode", ("text" if cfg["text_mode"] else "bin") + " buf=%s" % cfg.get("buffering", -1))
     bump("api", cfg.get("api", "func") + "/" + cfg.get("path", "abs"))
     bump("perms", str(cfg["file_perms"]))
-    bump("init", "dest=%d part=%d" % ("dest" in case["init"], "part" in case["init"]))
+    bump("init", "dest=%d part=%d%s" % ("dest" in case["init"], "part" in case["init"],
+                                        " (hard link)" if is_partlink(case["init"]) else ""))
     bump("writes", str(min(len([o for o in case["body"] if o[0] == "w"]), 6)))
     d["kills"] = d.get("kills", 0) + len([1 for k, _ in obs["crashes"] if k < len(obs["run"]["trace"])])
     d["published"] = d.get("published", 0) + (1 if published(obs) else 0)
